@@ -59,9 +59,9 @@ func C03MarkerLayout() {
 	two := vrt.Bool("twoInterfaces")
 	// The layout family is restricted to REALISABLE files (so that every model can be rendered
 	// as a setup file for the end-to-end replay): the header needs 40 bytes, "type Convergen
-	// interface " 25 bytes before A's brace, "// :convergen\ntype B interface " 31 bytes before B's,
+	// interface " 25 bytes (+ a line break) before A's brace, "// :convergen\ntype B interface " 31 bytes (+ a line break) before B's,
 	// a comment is followed by a line break.
-	const typeText, typeTextB = 25, 31
+	const typeText, typeTextB = 26, 32
 	header := token.Pos(40)
 	file := &ast.File{Name: &ast.Ident{Name: "p"}}
 	// optionally the go:generate directive is the package clause's doc comment (directly above
